@@ -1661,70 +1661,458 @@ Qed.
 (** * 6. The generated report *)
 
 (** ** 6a. work line: the sum over what is materialised is the root's t_1, however contracted *)
-Definition full_stat_work (x : node) : Z := stat_work x.
 
-(** an in-memory DAG whose summaries are consistent with what is below them *)
+(** an in-memory DAG whose t_1 summaries are consistent with what is below them *)
 Inductive t1_ok : node -> Prop :=
 | t1_leaf : forall i, t1_ok (NLeaf i)
-| t1_create : forall i c, t1_ok c -> stat_work c = i_t1 (ninfo c) -> t1_ok (NCreate i c)
+| t1_create : forall i ci cch, t1_ok (NSub ci cch) -> t1_ok (NCreate i (NSub ci cch))
 | t1_collapsed : forall i, t1_ok (NSub i [])
-| t1_sub : forall i x ch, Forall t1_ok (x :: ch) -> i_t1 i = zsum (map full_t1 (x :: ch)) ->
-                          Forall (fun y => stat_work y = full_t1 y) (x :: ch) -> t1_ok (NSub i (x :: ch)).
-
-Lemma t1_ok_stat_work : forall n, t1_ok n -> (forall i c, n <> NCreate i c) -> stat_work n = i_t1 (ninfo n).
-Proof.
-  intros n H Hn. destruct H as [i|i c Hc He|i|i x ch Hch Hi Hst].
-  - reflexivity.
-  - exfalso. apply (Hn i c). reflexivity.
-  - reflexivity.
-  - cbn [stat_work ninfo]. rewrite Hi. f_equal. apply map_ext_Forall. exact Hst.
-Qed.
+| t1_sub : forall i x ch, Forall t1_ok (x :: ch) -> i_t1 i = zsum (map full_t1 (x :: ch)) -> t1_ok (NSub i (x :: ch)).
 
 Lemma stat_work_full : forall n, t1_ok n -> stat_work n = full_t1 n.
 Proof.
-  intros n H. destruct n as [i|i c|i ch].
+  induction n as [i|i c IH|i ch IH] using node_ind'; intros H.
   - unfold full_t1, child_part; cbn. lia.
-  - inversion H; subst. unfold full_t1, child_part. cbn [stat_work ninfo]. lia.
-  - rewrite (t1_ok_stat_work _ H) by (intros; discriminate). unfold full_t1, child_part; cbn. lia.
+  - inversion H; subst. specialize (IH H1). unfold full_t1, child_part in *.
+    change (stat_work (NCreate i (NSub ci cch))) with (i_t1 i + stat_work (NSub ci cch)).
+    rewrite IH. cbn [ninfo]. lia.
+  - inversion H as [| |i0|i0 x r Hch Hi]; subst.
+    + unfold full_t1, child_part; cbn. lia.
+    + change (stat_work (NSub i (x :: r))) with (zsum (map stat_work (x :: r))).
+      assert (Hm : map stat_work (x :: r) = map full_t1 (x :: r)).
+      { apply map_ext_Forall. eapply Forall_impl2; [|exact IH|exact Hch]. cbn. intros y A B. exact (A B). }
+      rewrite Hm. transitivity (i_t1 i); [symmetry; exact Hi|].
+      unfold full_t1, child_part; cbn [ninfo]. lia.
 Qed.
 
 Lemma full_t1_eqc : forall n n', node_eqc n n' -> full_t1 n = full_t1 n'.
 Proof.
   intros n n' H. unfold full_t1, child_part.
   destruct n as [i|i c|i ch]; destruct n' as [i'|i' c'|i' ch']; cbn in H; try contradiction.
-  all: try (destruct H as [H Hc]; apply info_eqc_fields in Hc; destruct Hc as (_ & _ & _ & _ & Hc & _)).
-  all: apply info_eqc_fields in H; destruct H as (_ & _ & _ & _ & H & _); cbn [ninfo]; lia.
+  - apply info_eqc_fields in H. destruct H as (_ & _ & _ & _ & H & _). cbn [ninfo]. lia.
+  - apply info_eqc_fields in H. destruct H as (_ & _ & _ & _ & H & _). cbn [ninfo]. lia.
+  - destruct H as [H Hc]. apply info_eqc_fields in H. destruct H as (_ & _ & _ & _ & H & _).
+    apply info_eqc_fields in Hc. destruct Hc as (_ & _ & _ & _ & Hc & _). cbn [ninfo]. lia.
+  - apply info_eqc_fields in H. destruct H as (_ & _ & _ & _ & H & _). cbn [ninfo]. lia.
+  - apply info_eqc_fields in H. destruct H as (_ & _ & _ & _ & H & _). cbn [ninfo]. lia.
 Qed.
+
+Lemma i_t1_set_cur : forall i c, i_t1 (set_cur i c) = i_t1 i.
+Proof. intros [] c; reflexivity. Qed.
 
 Lemma contracts_t1_ok : forall n, t1_ok n -> forall n', contracts n n' -> t1_ok n'.
 Proof.
   induction n as [i|i c IH|i ch IH] using node_ind'; intros Hok n' Hc.
   - inversion Hc; subst. constructor.
-  - inversion Hc; subst. inversion Hok; subst.
-    assert (Hc' : t1_ok c') by (apply IH; assumption).
-    constructor; [exact Hc'|].
-    rewrite stat_work_full by exact Hc'.
-    pose proof (contracts_info _ _ H1) as He. apply info_eqc_fields in He.
-    destruct He as (_ & _ & _ & _ & He & _).
-    destruct c' as [i'|i' c''|i' ch'']; unfold full_t1, child_part; cbn [ninfo] in *; try lia.
-    (* a created task is a section/task node: excluded by the shape of c *)
-    inversion H1; subst. inversion H3; subst.
-    rewrite stat_work_full in H4 by assumption. unfold full_t1, child_part in H4. cbn [ninfo] in *. lia.
-  - inversion Hc; subst.
-    + destruct (set_cur i cur') eqn:E. constructor.
-    + destruct ch' as [|x' r'].
-      * destruct (set_cur i cur') eqn:E. constructor.
-      * inversion Hok as [| | |i0 x r Hch Hi Hst]; subst.
-        { inversion H1. }
-        assert (Hch' : Forall t1_ok (x' :: r')).
-        { clear - IH Hch H1. revert IH Hch. induction H1 as [|a a' l l' Ha Hl IHl]; intros IH Hch; [constructor|].
-          inversion IH; subst. inversion Hch; subst. constructor; [apply H2; assumption|apply IHl; assumption]. }
-        assert (Hmap : map full_t1 (x :: r) = map full_t1 (x' :: r')).
-        { clear - H1. induction H1 as [|a a' l l' Ha Hl IHl]; [reflexivity|].
-          cbn [map]. rewrite IHl. f_equal. apply full_t1_eqc, contracts_node_eqc, Ha. }
-        destruct (set_cur i cur') eqn:E.
-        assert (Ei : i_t1 (set_cur i cur') = i_t1 i) by (destruct i; reflexivity).
-        rewrite E in Ei. cbn [i_t1] in Ei.
-        apply t1_sub; [exact Hch'|cbn [i_t1]; rewrite Ei, Hi, Hmap; reflexivity|].
-        apply Forall_forall. intros y Hy. apply stat_work_full. rewrite Forall_forall in Hch'. apply Hch', Hy.
+  - inversion Hc as [|i0 c0 c' Hcc| |]; subst. inversion Hok as [|i0 ci cch Hsub| |]; subst.
+    specialize (IH Hsub c' Hcc).
+    inversion Hcc; subst; constructor; exact IH.
+  - inversion Hc as [| |i0 ch0 cur'|i0 ch0 ch' cur' Hf2]; subst; [constructor|].
+    destruct ch' as [|x' r']; [constructor|].
+    inversion Hok as [| |i0|i0 x r Hch Hi]; subst; [inversion Hf2|].
+    apply t1_sub.
+    + clear - IH Hch Hf2. revert IH Hch. induction Hf2 as [|a a' l l' Ha Hl IHl]; intros IH Hch; [constructor|].
+      inversion IH; subst. inversion Hch; subst. constructor; [apply H1; assumption|apply IHl; assumption].
+    + rewrite i_t1_set_cur, Hi. f_equal.
+      clear - Hf2. induction Hf2 as [|a a' l l' Ha Hl IHl]; [reflexivity|].
+      cbn [map]. rewrite IHl. f_equal. apply full_t1_eqc, contracts_node_eqc, Ha.
+Qed.
+
+Lemma app_one_cons : forall (A : Type) (l : list A) x, exists y r, l ++ [x] = y :: r.
+Proof. intros A [|y l] x; cbn; eauto. Qed.
+
+Lemma record_items_Forall : forall (P : node -> Prop) f p items k,
+  Forall (fun x => forall q, P (f q x)) items -> Forall P (record_items f p k items).
+Proof.
+  intros P f p items; induction items as [|x r IH]; intros k H; cbn [record_items]; [constructor|].
+  inversion H; subst. constructor; [apply H2|apply IH; assumption].
+Qed.
+
+Lemma t1_ok_close : forall oc k l x, Forall t1_ok l -> t1_ok x -> t1_ok (NSub (accumulate oc k (l ++ [x])) (l ++ [x])).
+Proof.
+  intros oc k l x Hl Hx. pose proof (accumulate_t1 oc k l x) as Ht.
+  destruct (app_one_cons _ l x) as (y & r & E). rewrite E in *.
+  apply t1_sub; [rewrite <- E; apply Forall_app; split; [exact Hl|constructor; [exact Hx|constructor]]|exact Ht].
+Qed.
+
+Theorem record_t1_ok : forall oc summ, contracting summ -> forall t c, wf c t = true ->
+  forall p, t1_ok (record oc summ p t).
+Proof.
+  intros oc summ Hs t. induction t as [l|l ch IH|items w IH|items e IH] using tree_ind'; intros c Hwf p.
+  - constructor.
+  - destruct c; cbn in Hwf; try discriminate.
+    destruct (wf_child_task _ Hwf) as (items & e & Ech).
+    specialize (IH CChild Hwf (p ++ [0%nat])). cbn [record]. rewrite Ech in *. cbn [record] in *.
+    match goal with |- t1_ok (NCreate _ (summ ?q ?n)) => pose proof (Hs q n) as Hc; destruct (summ q n) eqn:E end;
+      inversion Hc; subst; constructor; exact IH.
+  - assert (Hit : Forall (fun x => wf CSect x = true) items)
+      by (destruct c; cbn in Hwf; try discriminate; apply wf_forall; exact Hwf).
+    cbn [record]. eapply contracts_t1_ok; [|apply Hs].
+    apply t1_ok_close; [|constructor]. apply record_items_Forall.
+    eapply Forall_impl2; [|exact IH|exact Hit]. cbn. intros x A B q. exact (A _ B q).
+  - assert (Hit : Forall (fun x => wf CTask x = true) items)
+      by (destruct c; cbn in Hwf; try discriminate; apply wf_forall; exact Hwf).
+    cbn [record]. eapply contracts_t1_ok; [|apply Hs].
+    apply t1_ok_close; [|constructor]. apply record_items_Forall.
+    eapply Forall_impl2; [|exact IH|exact Hit]. cbn. intros x A B q. exact (A _ B q).
+Qed.
+
+Theorem stat_work_invariant : forall oc summ, contracting summ -> forall t, well_nested t ->
+  stat_work (record oc summ [] t) = work t.
+Proof.
+  intros oc summ Hs t Hwf.
+  rewrite stat_work_full by (eapply record_t1_ok; [exact Hs|exact Hwf]).
+  rewrite <- (root_work oc summ Hs t Hwf). unfold root_info.
+  destruct (wf_child_task _ Hwf) as (items & e & ->). cbn [record].
+  match goal with |- full_t1 (summ ?q ?n) = _ => pose proof (Hs q n) as Hc; destruct (summ q n) eqn:E end;
+    inversion Hc; subst; unfold full_t1, child_part; cbn [ninfo]; lia.
+Qed.
+
+(** ** 6b. edge lines: what the report enumerates on a contracted DAG *)
+
+Definition nonlast_ok (y : node) : Prop :=
+  match y with
+  | NLeaf i => i_kind i = KOther
+  | NCreate _ _ => True
+  | NSub i _ => i_kind i = KSection
+  end.
+Definition lastleaf_ok (y : node) : Prop :=
+  match y with NLeaf i => i_kind i = KWait \/ i_kind i = KEnd | _ => False end.
+Fixpoint shape_ok (l : list node) : Prop :=
+  match l with
+  | [] => False
+  | [y] => lastleaf_ok y
+  | y :: r => nonlast_ok y /\ shape_ok r
+  end.
+
+Inductive ed_ok (oc : bool) : node -> Prop :=
+| ed_leaf : forall i, i_edges i = ec_zero -> ed_ok oc (NLeaf i)
+| ed_create : forall i ci cch, i_edges i = ec_zero -> i_kind ci = KTask -> n_creates cch = 0 ->
+    ed_ok oc (NSub ci cch) -> ed_ok oc (NCreate i (NSub ci cch))
+| ed_collapsed : forall i, ed_ok oc (NSub i [])
+| ed_sub : forall i x ch, Forall (ed_ok oc) (x :: ch) -> shape_ok (x :: ch) ->
+    i_edges i = ec_sum (map (contrib oc) (x :: ch)) -> i_nchild i = n_creates (x :: ch) ->
+    ed_ok oc (NSub i (x :: ch)).
+
+Definition sub_spec (oc fe : bool) (i : info) (ch : list node) : Prop :=
+  let s := stat_edges fe (NSub i ch) in
+  ec_create s + n_creates ch = ec_create (i_edges i) /\
+  ec_ccont s = ec_ccont (i_edges i) /\
+  ec_wcont s = ec_wcont (i_edges i) /\
+  (fe = true -> ec_end s = ec_end (i_edges i) +
+                 match ch with [] => (match i_kind i with KSection => i_nchild i | _ => 0 end) | _ => 0 end) /\
+  (oc = true -> ec_ocont s = ec_ocont (i_edges i)).
+
+Definition node_spec (oc fe : bool) (n : node) : Prop :=
+  (forall i ch, n = NSub i ch -> sub_spec oc fe i ch) /\
+  (forall i' ci cch, n = NCreate i' (NSub ci cch) -> sub_spec oc fe ci cch).
+
+Lemma stat_edges_sub_cons : forall fe i x ch,
+  stat_edges fe (NSub i (x :: ch)) = stat_edges_list (stat_edges fe) (x :: ch).
+Proof. reflexivity. Qed.
+
+Lemma ec_proj_add : forall a b,
+  ec_end (ec_add a b) = ec_end a + ec_end b /\ ec_create (ec_add a b) = ec_create a + ec_create b /\
+  ec_ccont (ec_add a b) = ec_ccont a + ec_ccont b /\ ec_wcont (ec_add a b) = ec_wcont a + ec_wcont b /\
+  ec_ocont (ec_add a b) = ec_ocont a + ec_ocont b.
+Proof. intros; unfold ec_add; cbn; repeat split. Qed.
+
+Definition list_spec (oc fe : bool) (l : list node) : Prop :=
+  let s := stat_edges_list (stat_edges fe) l in
+  let C := ec_sum (map (contrib oc) l) in
+  ec_create s + n_creates l = ec_create C /\ ec_ccont s = ec_ccont C /\ ec_wcont s = ec_wcont C /\
+  (fe = true -> ec_end s = ec_end C) /\ (oc = true -> ec_ocont s = ec_ocont C).
+
+(** a child that has a next sibling: what the report adds for it equals what the accumulation
+    added for it, up to the create edge of a create_task interval, which the report attributes
+    one level up *)
+Lemma nonlast_spec : forall oc fe y, ed_ok oc y -> node_spec oc fe y -> nonlast_ok y ->
+  let u := ec_add (stat_edges fe y) (ec_add (cont_edge y) (sect_create_edges y)) in
+  let C := contrib oc y in
+  ec_create u + (if is_create y then 1 else 0) = ec_create C /\ ec_ccont u = ec_ccont C /\
+  ec_wcont u = ec_wcont C /\ (fe = true -> ec_end u = ec_end C) /\ (oc = true -> ec_ocont u = ec_ocont C).
+Proof.
+  intros oc fe y Hok [Hs Hc] Hnl. destruct y as [i|i c|i ch].
+  - (* other *)
+    inversion Hok as [i0 He| | |]; subst. cbn [nonlast_ok] in Hnl.
+    unfold contrib, edge_extra, cont_edge, sect_create_edges. cbn [ninfo stat_edges is_create].
+    rewrite Hnl, He. destruct oc; cbn; repeat split; intros; try lia; discriminate.
+  - (* create *)
+    inversion Hok as [|i0 ci cch He Hk Hn Hsub| |]; subst.
+    destruct (Hc i ci cch eq_refl) as (S1 & S2 & S3 & S4 & S5).
+    unfold contrib, edge_extra, cont_edge, sect_create_edges. cbn [ninfo is_create].
+    change (stat_edges fe (NCreate i (NSub ci cch))) with (stat_edges fe (NSub ci cch)).
+    cbv zeta in S1, S2, S3, S4, S5. rewrite He, Hk in *.
+    destruct (ec_proj_add (stat_edges fe (NSub ci cch)) (ec_add (mkEC 0 0 1 0 0) ec_zero)) as (P1 & P2 & P3 & P4 & P5).
+    rewrite P1, P2, P3, P4, P5. unfold ec_add at 1 2 3 4 5. unfold ec_add, ec_zero.
+    cbn [ec_end ec_create ec_ccont ec_wcont ec_ocont].
+    repeat split; intros; try lia.
+    + specialize (S4 H). destruct cch; lia.
+    + specialize (S5 H). lia.
+  - (* section *)
+    cbn [nonlast_ok] in Hnl.
+    destruct (Hs i ch eq_refl) as (S1 & S2 & S3 & S4 & S5). cbv zeta in S1, S2, S3, S4, S5.
+    unfold contrib, edge_extra, cont_edge. cbn [ninfo is_create]. rewrite Hnl in *.
+    destruct (ec_proj_add (stat_edges fe (NSub i ch)) (ec_add (mkEC 0 0 0 1 0) (sect_create_edges (NSub i ch)))) as (P1 & P2 & P3 & P4 & P5).
+    rewrite P1, P2, P3, P4, P5.
+    destruct ch as [|a b].
+    + unfold sect_create_edges, ec_add, ec_zero. cbn [ec_end ec_create ec_ccont ec_wcont ec_ocont].
+      change (n_creates []) with 0 in S1.
+      repeat split; intros; try lia; [specialize (S4 H); lia|specialize (S5 H); lia].
+    + inversion Hok as [| | |i0 x r Hch Hsh Hed Hnc]; subst.
+      unfold sect_create_edges. rewrite Hnl. unfold ec_add, ec_zero. cbn [ec_end ec_create ec_ccont ec_wcont ec_ocont].
+      repeat split; intros; try lia; [specialize (S4 H); lia|specialize (S5 H); lia].
+Qed.
+
+Lemma list_spec_holds : forall oc fe l, shape_ok l -> Forall (ed_ok oc) l -> Forall (node_spec oc fe) l ->
+  list_spec oc fe l.
+Proof.
+  intros oc fe; induction l as [|y r IH]; intros Hsh Hok Hsp; [contradiction|].
+  inversion Hok as [|? ? Hoy Hor]; subst. inversion Hsp as [|? ? Hsy Hsr]; subst.
+  destruct r as [|z r'].
+  - (* the wait / end interval *)
+    cbn [shape_ok] in Hsh. destruct y as [i|i c|i ch]; try contradiction.
+    inversion Hoy; subst. unfold list_spec. cbn [stat_edges_list stat_edges map ec_sum fold_right].
+    unfold contrib, edge_extra. cbn [ninfo]. rewrite H0.
+    change (n_creates [NLeaf i]) with 0.
+    destruct Hsh as [-> | ->]; cbn; repeat split; intros; lia.
+  - destruct Hsh as [Hnl Hsh].
+    specialize (IH Hsh Hor Hsr). destruct IH as (I1 & I2 & I3 & I4 & I5). cbv zeta in I1, I2, I3, I4, I5.
+    destruct (nonlast_spec oc fe y Hoy Hsy Hnl) as (N1 & N2 & N3 & N4 & N5). cbv zeta in N1, N2, N3, N4, N5.
+    unfold list_spec. cbv zeta.
+    change (stat_edges_list (stat_edges fe) (y :: z :: r')) with
+      (ec_add (ec_add (stat_edges fe y) (ec_add (cont_edge y) (sect_create_edges y))) (stat_edges_list (stat_edges fe) (z :: r'))).
+    change (ec_sum (map (contrib oc) (y :: z :: r'))) with (ec_add (contrib oc y) (ec_sum (map (contrib oc) (z :: r')))).
+    rewrite n_creates_cons.
+    match goal with |- context [ec_add ?a ?b] => destruct (ec_proj_add a b) as (P1 & P2 & P3 & P4 & P5) end.
+    match goal with |- context [ec_create (ec_add (contrib oc y) ?b)] =>
+      destruct (ec_proj_add (contrib oc y) b) as (Q1 & Q2 & Q3 & Q4 & Q5) end.
+    rewrite P1, P2, P3, P4, P5, Q1, Q2, Q3, Q4, Q5.
+    repeat split; intros; try lia.
+    + specialize (I4 H). specialize (N4 H). lia.
+    + specialize (I5 H). specialize (N5 H). lia.
+Qed.
+
+Theorem ed_ok_spec : forall oc fe n, ed_ok oc n -> node_spec oc fe n.
+Proof.
+  intros oc fe. induction n as [i|i c IH|i ch IH] using node_ind'; intros Hok.
+  - split; intros; discriminate.
+  - split; [intros; discriminate|]. intros i' ci cch E. inversion E; subst.
+    inversion Hok; subst. destruct (IH H5) as [Hs _]. apply (Hs ci cch eq_refl).
+  - split; [|intros; discriminate]. intros i0 ch0 E. inversion E; subst i0 ch0.
+    inversion Hok as [| |i0|i0 x r Hch Hsh Hed Hnc]; subst.
+    + unfold sub_spec. cbn [stat_edges]. change (n_creates []) with 0.
+      destruct (i_kind i); try (repeat split; intros; lia).
+      destruct fe; unfold ec_add; cbn [ec_end ec_create ec_ccont ec_wcont ec_ocont]; repeat split; intros; try lia; discriminate.
+    + assert (Hsp : Forall (node_spec oc fe) (x :: r)).
+      { eapply Forall_impl2; [|exact IH|exact Hch]. cbn. intros y A B. exact (A B). }
+      pose proof (list_spec_holds oc fe (x :: r) Hsh Hch Hsp) as (L1 & L2 & L3 & L4 & L5).
+      cbv zeta in L1, L2, L3, L4, L5.
+      unfold sub_spec. cbv zeta. rewrite stat_edges_sub_cons, Hed.
+      repeat split; intros; try lia.
+      * specialize (L4 H). lia.
+      * specialize (L5 H). lia.
+Qed.
+
+(** contraction keeps the edge summaries consistent *)
+Lemma contrib_eqc : forall oc n n', node_eqc n n' -> contrib oc n = contrib oc n'.
+Proof.
+  intros oc n n' H. unfold contrib, edge_extra.
+  destruct n as [i|i c|i ch]; destruct n' as [i'|i' c'|i' ch']; cbn in H; try contradiction.
+  - apply info_eqc_fields in H; destruct H as (Hk & _ & _ & _ & _ & _ & _ & He & _ & Hn);
+      cbn [ninfo]; rewrite Hk, He, Hn; reflexivity.
+  - apply info_eqc_fields in H; destruct H as (Hk & _ & _ & _ & _ & _ & _ & He & _ & Hn);
+      cbn [ninfo]; rewrite Hk, He, Hn; reflexivity.
+  - destruct H as [H Hc]. apply info_eqc_fields in H. apply info_eqc_fields in Hc.
+    destruct H as (_ & _ & _ & _ & _ & _ & _ & He & _). destruct Hc as (_ & _ & _ & _ & _ & _ & _ & Hce & _).
+    cbn [ninfo]. rewrite He, Hce. reflexivity.
+  - apply info_eqc_fields in H; destruct H as (Hk & _ & _ & _ & _ & _ & _ & He & _ & Hn);
+      cbn [ninfo]; rewrite Hk, He, Hn; reflexivity.
+  - apply info_eqc_fields in H; destruct H as (Hk & _ & _ & _ & _ & _ & _ & He & _ & Hn);
+      cbn [ninfo]; rewrite Hk, He, Hn; reflexivity.
+Qed.
+
+Lemma contracts_is_create : forall n n', contracts n n' -> is_create n' = is_create n.
+Proof. intros n n' H; destruct H; reflexivity. Qed.
+
+Lemma contracts_n_creates : forall l l', Forall2 contracts l l' -> n_creates l' = n_creates l.
+Proof.
+  intros l l' H; induction H as [|a a' r r' Ha Hr IH]; [reflexivity|].
+  rewrite !n_creates_cons, IH, (contracts_is_create _ _ Ha). reflexivity.
+Qed.
+
+Lemma contracts_contrib : forall oc l l', Forall2 contracts l l' -> map (contrib oc) l' = map (contrib oc) l.
+Proof.
+  intros oc l l' H; induction H as [|a a' r r' Ha Hr IH]; [reflexivity|].
+  cbn [map]. rewrite IH. f_equal. symmetry. apply contrib_eqc, contracts_node_eqc, Ha.
+Qed.
+
+Lemma i_kind_set_cur : forall i c, i_kind (set_cur i c) = i_kind i.
+Proof. intros [] c; reflexivity. Qed.
+Lemma i_edges_set_cur : forall i c, i_edges (set_cur i c) = i_edges i.
+Proof. intros [] c; reflexivity. Qed.
+Lemma i_nchild_set_cur : forall i c, i_nchild (set_cur i c) = i_nchild i.
+Proof. intros [] c; reflexivity. Qed.
+
+Lemma contracts_nonlast : forall n n', contracts n n' -> nonlast_ok n -> nonlast_ok n'.
+Proof. intros n n' H; destruct H; cbn; rewrite ?i_kind_set_cur; auto. Qed.
+Lemma contracts_lastleaf : forall n n', contracts n n' -> lastleaf_ok n -> lastleaf_ok n'.
+Proof. intros n n' H; destruct H; cbn; auto. Qed.
+
+Lemma contracts_shape : forall l l', Forall2 contracts l l' -> shape_ok l -> shape_ok l'.
+Proof.
+  intros l l' H; induction H as [|a a' r r' Ha Hr IH]; intros Hs; [exact Hs|].
+  destruct Hr as [|b b' r2 r2' Hb Hr2].
+  - cbn in *. eapply contracts_lastleaf; eassumption.
+  - destruct Hs as [Hn Hs]. split; [eapply contracts_nonlast; eassumption|apply IH; exact Hs].
+Qed.
+
+Lemma contracts_ed_ok : forall oc n, ed_ok oc n -> forall n', contracts n n' -> ed_ok oc n'.
+Proof.
+  intros oc. induction n as [i|i c IH|i ch IH] using node_ind'; intros Hok n' Hc.
+  - inversion Hc; subst. exact Hok.
+  - inversion Hc as [|i0 c0 c' Hcc| |]; subst. inversion Hok as [|i0 ci cch He Hk Hn Hsub| |]; subst.
+    specialize (IH Hsub c' Hcc).
+    inversion Hcc as [| |i0 ch0 cur'|i0 ch0 ch' cur' Hf2]; subst.
+    + apply ed_create; [exact He|rewrite i_kind_set_cur; exact Hk|reflexivity|exact IH].
+    + apply ed_create; [exact He|rewrite i_kind_set_cur; exact Hk| |exact IH].
+      rewrite (contracts_n_creates _ _ Hf2). exact Hn.
+  - inversion Hc as [| |i0 ch0 cur'|i0 ch0 ch' cur' Hf2]; subst; [constructor|].
+    destruct ch' as [|x' r']; [constructor|].
+    inversion Hok as [| |i0|i0 x r Hch Hsh Hed Hnc]; subst; [inversion Hf2|].
+    apply ed_sub.
+    + clear - IH Hch Hf2. revert IH Hch. induction Hf2 as [|a a' l l' Ha Hl IHl]; intros IH Hch; [constructor|].
+      inversion IH; subst. inversion Hch; subst. constructor; [apply H1; assumption|apply IHl; assumption].
+    + eapply contracts_shape; eassumption.
+    + rewrite i_edges_set_cur, Hed, (contracts_contrib oc _ _ Hf2). reflexivity.
+    + rewrite i_nchild_set_cur, Hnc, (contracts_n_creates _ _ Hf2). reflexivity.
+Qed.
+
+(** the recorder produces consistent edge summaries *)
+Lemma record_is_create : forall oc summ, contracting summ -> forall t p,
+  is_create (record oc summ p t) = is_create_t t.
+Proof.
+  intros oc summ Hs [l|l c|items w|items e] p; cbn [record is_create_t]; try reflexivity.
+  - match goal with |- is_create (summ ?q ?n) = _ => pose proof (Hs q n) as Hc; inversion Hc; reflexivity end.
+  - match goal with |- is_create (summ ?q ?n) = _ => pose proof (Hs q n) as Hc; inversion Hc; reflexivity end.
+Qed.
+
+Lemma n_creates_record_items : forall oc summ, contracting summ -> forall items p k,
+  n_creates (record_items (record oc summ) p k items) = ndc items.
+Proof.
+  intros oc summ Hs; induction items as [|x r IH]; intros p k; [reflexivity|].
+  cbn [record_items]. rewrite n_creates_cons, IH, record_is_create by exact Hs.
+  unfold ndc; cbn [filter]. destruct (is_create_t x); cbn [length]; [rewrite Nat2Z.inj_succ|]; lia.
+Qed.
+
+Lemma ndc_task_items : forall items, Forall (fun x => wf CTask x = true) items -> ndc items = 0.
+Proof.
+  intros items H. rewrite ndc_pend. induction H as [|x r Hx _ IH]; [reflexivity|].
+  cbn [map]. rewrite zsum_cons, IH. destruct (wf_task_item _ Hx) as [(l & ->)|(it & w & -> & _)]; reflexivity.
+Qed.
+
+Lemma shape_ok_app_leaf : forall l i, Forall nonlast_ok l -> (i_kind i = KWait \/ i_kind i = KEnd) ->
+  shape_ok (l ++ [NLeaf i]).
+Proof.
+  induction l as [|y r IH]; intros i Hl Hi; [exact Hi|].
+  inversion Hl; subst. cbn [app]. specialize (IH i H2 Hi).
+  destruct (r ++ [NLeaf i]) eqn:E; [destruct r; discriminate|].
+  split; assumption.
+Qed.
+
+Lemma record_nonlast : forall oc summ, contracting summ -> forall t c p, (c = CSect \/ c = CTask) -> wf c t = true ->
+  nonlast_ok (record oc summ p t).
+Proof.
+  intros oc summ Hs [l|l ch|items w|items e] c p Hc Hwf; cbn [record].
+  - reflexivity.
+  - exact I.
+  - match goal with |- nonlast_ok (summ ?q ?n) => pose proof (Hs q n) as Hct; inversion Hct; subst end;
+      cbn [nonlast_ok]; rewrite i_kind_set_cur; apply accumulate_kind.
+  - destruct Hc as [-> | ->]; cbn in Hwf; discriminate.
+Qed.
+
+Lemma ed_ok_close : forall oc k l i, Forall (ed_ok oc) l -> Forall nonlast_ok l ->
+  i_edges i = ec_zero -> (i_kind i = KWait \/ i_kind i = KEnd) ->
+  ed_ok oc (NSub (accumulate oc k (l ++ [NLeaf i])) (l ++ [NLeaf i])).
+Proof.
+  intros oc k l i Hl Hnl He Hk.
+  assert (Hk1 : i_kind i <> KSection) by (destruct Hk as [-> | ->]; discriminate).
+  assert (Hk2 : i_kind i <> KOther) by (destruct Hk as [-> | ->]; discriminate).
+  pose proof (accumulate_edges oc k l i Hk1 Hk2) as Hed.
+  pose proof (accumulate_nchild oc k l (NLeaf i)) as Hnc.
+  pose proof (shape_ok_app_leaf l i Hnl Hk) as Hsh.
+  assert (Hall : Forall (ed_ok oc) (l ++ [NLeaf i])).
+  { apply Forall_app; split; [exact Hl|constructor; [constructor; exact He|constructor]]. }
+  destruct (app_one_cons _ l (NLeaf i)) as (y & r & E). rewrite E in *.
+  apply ed_sub; assumption.
+Qed.
+
+Theorem record_ed_ok : forall oc summ, contracting summ -> forall t c, wf c t = true ->
+  forall p, ed_ok oc (record oc summ p t).
+Proof.
+  intros oc summ Hs t. induction t as [l|l ch IH|items w IH|items e IH] using tree_ind'; intros c Hwf p.
+  - constructor. reflexivity.
+  - destruct c; cbn in Hwf; try discriminate.
+    destruct (wf_child_task _ Hwf) as (items & e & Ech).
+    specialize (IH CChild Hwf (p ++ [0%nat])). cbn [record]. rewrite Ech in *. cbn [record] in *.
+    cbn in Hwf.
+    match goal with |- ed_ok oc (NCreate _ (summ ?q (NSub ?a ?chn))) =>
+      pose proof (Hs q (NSub a chn)) as Hc;
+      assert (Hk : i_kind a = KTask) by apply accumulate_kind;
+      assert (Hn : n_creates chn = 0)
+        by (rewrite n_creates_app, n_creates_record_items by exact Hs;
+            rewrite (ndc_task_items items) by (apply wf_forall; exact Hwf); reflexivity);
+      destruct (summ q (NSub a chn)) eqn:E
+    end; inversion Hc; subst.
+    + apply ed_create; [reflexivity|rewrite i_kind_set_cur; exact Hk|reflexivity|exact IH].
+    + apply ed_create; [reflexivity|rewrite i_kind_set_cur; exact Hk| |exact IH].
+      match goal with H : Forall2 contracts _ _ |- _ => rewrite (contracts_n_creates _ _ H) end. exact Hn.
+  - assert (Hit : Forall (fun x => wf CSect x = true) items)
+      by (destruct c; cbn in Hwf; try discriminate; apply wf_forall; exact Hwf).
+    cbn [record]. eapply contracts_ed_ok; [|apply Hs].
+    apply ed_ok_close; [| |reflexivity|left; reflexivity].
+    + apply record_items_Forall. eapply Forall_impl2; [|exact IH|exact Hit]. cbn. intros x A B q. exact (A _ B q).
+    + apply record_items_Forall. eapply Forall_impl; [|exact Hit]. cbn. intros x B q.
+      eapply record_nonlast; [exact Hs|left; reflexivity|exact B].
+  - assert (Hit : Forall (fun x => wf CTask x = true) items)
+      by (destruct c; cbn in Hwf; try discriminate; apply wf_forall; exact Hwf).
+    cbn [record]. eapply contracts_ed_ok; [|apply Hs].
+    apply ed_ok_close; [| |reflexivity|right; reflexivity].
+    + apply record_items_Forall. eapply Forall_impl2; [|exact IH|exact Hit]. cbn. intros x A B q. exact (A _ B q).
+    + apply record_items_Forall. eapply Forall_impl; [|exact Hit]. cbn. intros x B q.
+      eapply record_nonlast; [exact Hs|right; reflexivity|exact B].
+Qed.
+
+(** the edge lines of the report, for the root of a well-nested recording under any contraction:
+    create, create_cont and wait_cont always equal the numbers of the uncontracted DAG; end needs
+    the repaired report ([fe]); other_cont needs the repaired accumulation ([oc]) *)
+Theorem root_stat_edges : forall oc fe summ, contracting summ -> forall t, well_nested t ->
+  let s := stat_edges fe (record oc summ [] t) in
+  ec_create s = count_kind KCreate t /\ ec_ccont s = count_kind KCreate t /\ ec_wcont s = count_kind KWait t /\
+  (fe = true -> ec_end s = count_kind KCreate t) /\ (oc = true -> ec_ocont s = count_kind KOther t).
+Proof.
+  intros oc fe summ Hs t Hwf. cbv zeta.
+  pose proof (record_ed_ok oc summ Hs t _ Hwf []) as Hok.
+  pose proof (root_edges oc summ Hs t Hwf) as Hre. unfold root_info in Hre.
+  destruct (wf_child_task _ Hwf) as (items & e & Et). subst t. cbn in Hwf.
+  cbn [record] in *.
+  match type of Hok with ed_ok oc (summ ?q (NSub ?a ?chn)) =>
+    pose proof (Hs q (NSub a chn)) as Hc;
+    assert (Hk : i_kind a = KTask) by apply accumulate_kind;
+    assert (Hn : n_creates chn = 0)
+      by (rewrite n_creates_app, n_creates_record_items by exact Hs;
+          rewrite (ndc_task_items items) by (apply wf_forall; exact Hwf); reflexivity);
+    destruct (summ q (NSub a chn)) as [i0|i0 c0|i0 ch0] eqn:E
+  end; inversion Hc; subst.
+  - destruct (ed_ok_spec oc fe _ Hok) as [Hsp _].
+    destruct (Hsp _ _ eq_refl) as (S1 & S2 & S3 & S4 & S5). cbv zeta in S1, S2, S3, S4, S5.
+    cbn [ninfo] in Hre. rewrite Hre in *. rewrite i_kind_set_cur, Hk in S4.
+    change (n_creates []) with 0 in S1. cbn [ec_end ec_create ec_ccont ec_wcont ec_ocont] in *.
+    repeat split; intros; try lia; [specialize (S4 H); lia|specialize (S5 H); rewrite H in S5; lia].
+  - destruct (ed_ok_spec oc fe _ Hok) as [Hsp _].
+    destruct (Hsp _ _ eq_refl) as (S1 & S2 & S3 & S4 & S5). cbv zeta in S1, S2, S3, S4, S5.
+    cbn [ninfo] in Hre. rewrite Hre in *. rewrite i_kind_set_cur, Hk in S4.
+    match goal with H : Forall2 contracts _ _ |- _ => rewrite (contracts_n_creates _ _ H), Hn in S1 end.
+    cbn [ec_end ec_create ec_ccont ec_wcont ec_ocont] in *.
+    repeat split; intros; try lia; [specialize (S4 H); destruct ch0; lia|specialize (S5 H); rewrite H in S5; lia].
 Qed.
